@@ -20,31 +20,41 @@ theorem imageF_left_false (umap vmap : Option (List (Int × Int))) (ubad vbad : 
     imageF umap vmap ubad vbad Q fa (f+1) (-1) v cache m = (.ok (-1, cache), m) := by
   unfold imageF; simp
 
-/-- the run of `_image` on the F5 witness: it succeeds and returns a reference of `¬x` -/
-theorem imgM_F5_run :
-    ∃ r c m', imageF none (some [(0, 1)]) [] [] [1] false 8 (-4) (-3) {} imgM = (.ok (r, c), m') ∧
+/-- the example manager with the context flag set to `c` (the decorated bodies run with the
+flag set) -/
+def imgMc (c : Bool) : Mgr := { imgM with ctx := c }
+
+theorem imgMc_inv (c : Bool) : Inv (imgMc c) := imgM_inv.setCtx c
+theorem imgMc_nvars' (c : Bool) : (imgMc c).nvars = 2 := imgM_nvars'
+theorem imgMc_false : imgMc false = imgM := rfl
+theorem imgMc_tbl (c : Bool) : (imgMc c).tbl = imgM.tbl := rfl
+
+/-- the run of `_image` on the F5 witness, whatever the context flag: it succeeds and returns a
+reference of `¬x` -/
+theorem imgM_F5_run_ctx (cx : Bool) :
+    ∃ r c m', imageF none (some [(0, 1)]) [] [] [1] false 8 (-4) (-3) {} (imgMc cx) = (.ok (r, c), m') ∧
       ∀ a, den m'.tbl r a = !a 0 := by
-  have hW := imgM_inv.wf.toWF
+  have hW := (imgMc_inv cx).wf.toWF
   -- innermost call `(1, xp)`: covered by the specification (`xp` is no rename target)
   obtain ⟨r1, c1, m1, e1, hI1, hE1, hF1, _, hr1, hd1⟩ := imageF_spec_preimage [(0, 1)] [1] false
-    (fun j => j) (fun j => j = 1) 6 imgM 1 2 {} imgM_inv rfl (mem_one _) (imgM_mem 2 (by decide))
+    (fun j => j) (fun j => j = 1) 6 (imgMc cx) 1 2 {} (imgMc_inv cx) rfl (mem_one _) (imgM_mem 2 (by decide))
     (fun j h => by
       have h1 := h.ge hW
       have h2 := h.lt_nvars hW
-      rw [imgM_levelOf2] at h1
-      rw [imgM_nvars] at h2
+      rw [imgMc_tbl, imgM_levelOf2] at h1
+      rw [imgMc_tbl, imgM_nvars] at h2
       omega)
-    (fun j hj => by subst hj; rw [imgM_nvars']; decide)
-    (by rw [imgM_nvars']; decide)
+    (fun j hj => by subst hj; rw [(imgMc_nvars' cx)]; decide)
+    (by rw [(imgMc_nvars' cx)]; decide)
     (fun j j' hj hj' h => by omega)
     (IMemo.empty _ _ _ _ _)
-    (by rw [imgM_nvars', imgM_levelOf1, imgM_levelOf2]; omega)
+    (by rw [(imgMc_nvars' cx), imgMc_tbl, imgM_levelOf1, imgM_levelOf2]; omega)
   have hoff1 : m1.lastLen = none := by rw [hF1.lastLen]; rfl
   have hr1t : ∀ a, den m1.tbl r1 a = true := by
     intro a
     rw [hd1 a]
     refine ⟨upd a 1 true, agreeOff_upd (by simp) true (AgreeOff.refl _ _), ?_⟩
-    simp [den_one, imgM_den2, upd]
+    simp [imgMc_tbl, den_one, imgM_den2, upd]
   -- `ite(p, 1, q)` at the quantified level 1
   obtain ⟨r2, m2, e2, hp2⟩ := ite_spec_off m1 hI1 hoff1 r1 1 (-1) hr1 (mem_one _) (mem_neg_one _)
   have hr2t : ∀ a, den m2.tbl r2 a = true := by
@@ -53,41 +63,41 @@ theorem imgM_F5_run :
     rfl
   have hoff2 : m2.lastLen = none := by rw [hp2.frame.lastLen]; exact hoff1
   -- the call `(¬xp, x xor xp)`
-  have hpcall : imageF none (some [(0, 1)]) [] [] [1] false 7 (-2) (-3) {} imgM =
+  have hpcall : imageF none (some [(0, 1)]) [] [] [1] false 7 (-2) (-3) {} (imgMc cx) =
       (.ok (r2, c1.insert (-2, -3) r2), m2) := by
-    show imageF none (some [(0, 1)]) [] [] [1] false (6+1) (-2) (-3) {} imgM = _
+    show imageF none (some [(0, 1)]) [] [] [1] false (6+1) (-2) (-3) {} (imgMc cx) = _
     unfold imageF
     have hA : ¬ ((-2 : Int) = -1 ∨ (-3 : Int) = -1) := by decide
     have hB : ¬ ((-2 : Int) = 1 ∧ (-3 : Int) = 1) := by decide
-    have h1 : imgM.tbl.levelOf? (-2) = some 1 := by decide
-    have h2 : imgM.tbl.levelOf? (-3) = some 0 := by decide
+    have h1 : (imgMc cx).tbl.levelOf? (-2) = some 1 := by rw [imgMc_tbl]; decide
+    have h2 : (imgMc cx).tbl.levelOf? (-3) = some 0 := by rw [imgMc_tbl]; decide
     have hz : min ((1 : Nat) : Int) 1 = 1 := by decide
     have hi : mapLvl (some [(0, 1)]) ((0 : Nat) : Int) = 1 := by decide
-    have hc1 : topCofactorI imgM.tbl (-2) 1 = .ok (1, -1) := by rfl
-    have hc2 : topCofactorI imgM.tbl (-3) (((0 : Nat) : Int) + 1 - 1) = .ok (2, -2) := by rfl
+    have hc1 : topCofactorI (imgMc cx).tbl (-2) 1 = .ok (1, -1) := by rfl
+    have hc2 : topCofactorI (imgMc cx).tbl (-3) (((0 : Nat) : Int) + 1 - 1) = .ok (2, -2) := by rfl
     have hq : (0 : Int) ≤ 1 ∧ [1].contains (1 : Int).toNat = true := by decide
     simp only [hA, hB, if_false, List.contains_nil, Bool.false_eq_true, HashMap.getElem?_empty, h1, h2, hz, hi, hc1, hc2, e1,
       imageF_left_false, hq, and_self, if_true, Bool.false_eq_true, e2]
   -- the top call `(¬x ∧ ¬xp, x xor xp)`: level 0 is not quantified
   have hn1 : m1.nvars = 2 := by
     have := hE1.nvars
-    rw [imgM_nvars] at this
+    rw [imgMc_tbl, imgM_nvars] at this
     exact this.symm
   have hn2 : m2.nvars = 2 := by rw [hp2.step.nvars]; exact hn1
   obtain ⟨g, m3, e3, hs3, hg3, _, hd3⟩ := varNode_off m2 hp2.inv hoff2 0 (by omega)
   obtain ⟨r4, m4, e4, hp4⟩ := ite_spec_off m3 hs3.inv (hs3.off hoff2) g (-1) r2 hg3
     (mem_neg_one _) (hs3.ext.mem hp2.mem)
   refine ⟨r4, (c1.insert (-2, -3) r2).insert (-4, -3) r4, m4, ?_, ?_⟩
-  · show imageF none (some [(0, 1)]) [] [] [1] false (7+1) (-4) (-3) {} imgM = _
+  · show imageF none (some [(0, 1)]) [] [] [1] false (7+1) (-4) (-3) {} (imgMc cx) = _
     unfold imageF
     have hA : ¬ ((-4 : Int) = -1 ∨ (-3 : Int) = -1) := by decide
     have hB : ¬ ((-4 : Int) = 1 ∧ (-3 : Int) = 1) := by decide
-    have h1 : imgM.tbl.levelOf? (-4) = some 0 := by decide
-    have h2 : imgM.tbl.levelOf? (-3) = some 0 := by decide
+    have h1 : (imgMc cx).tbl.levelOf? (-4) = some 0 := by rw [imgMc_tbl]; decide
+    have h2 : (imgMc cx).tbl.levelOf? (-3) = some 0 := by rw [imgMc_tbl]; decide
     have hi : mapLvl (some [(0, 1)]) ((0 : Nat) : Int) = 1 := by decide
     have hz : min ((0 : Nat) : Int) 1 = 0 := by decide
-    have hc1 : topCofactorI imgM.tbl (-4) 0 = .ok (-2, -1) := by rfl
-    have hc2 : topCofactorI imgM.tbl (-3) (((0 : Nat) : Int) + 0 - 1) = .ok (-3, -3) := by rfl
+    have hc1 : topCofactorI (imgMc cx).tbl (-4) 0 = .ok (-2, -1) := by rfl
+    have hc2 : topCofactorI (imgMc cx).tbl (-3) (((0 : Nat) : Int) + 0 - 1) = .ok (-3, -3) := by rfl
     have hq : ¬ ((0 : Int) ≤ 0 ∧ [1].contains (0 : Int).toNat = true) := by decide
     have hm : mapLvl none (0 : Int) = ((0 : Nat) : Int) := by decide
     simp only [hA, hB, if_false, List.contains_nil, Bool.false_eq_true, HashMap.getElem?_empty, h1, h2, hi, hz, hc1, hc2, hpcall,
@@ -95,5 +105,11 @@ theorem imgM_F5_run :
   · intro a
     rw [hp4.den a, hd3 a, den_neg_one, den_ext hs3.ext hp2.inv.wf.toWF r2 a hp2.mem, hr2t a]
     cases a 0 <;> rfl
+
+
+/-- the run of `_image` on the F5 witness: it succeeds and returns a reference of `¬x` -/
+theorem imgM_F5_run :
+    ∃ r c m', imageF none (some [(0, 1)]) [] [] [1] false 8 (-4) (-3) {} imgM = (.ok (r, c), m') ∧
+      ∀ a, den m'.tbl r a = !a 0 := imgM_F5_run_ctx false
 
 end DD
